@@ -10,6 +10,7 @@ git apply /tmp/_out_$$/mutant$N.diff || { mv /tmp/_out_$$ out; echo "CONFIRM $WT
 SUITE=$(go test -vet=off -count=1 ./... 2>&1 | grep -v 'no test files' | grep -c -E '^(FAIL|---|panic)')
 PKGDIR=.
 grep -q '^package zhttp' /tmp/_out_$$/demo${N}_test.go && PKGDIR=./zhttp
+grep -q '^package zenv' /tmp/_out_$$/demo${N}_test.go && PKGDIR=./zenv
 grep -q '^package zog_test' /tmp/_out_$$/demo${N}_test.go && PKGDIR=.
 cp /tmp/_out_$$/demo${N}_test.go $PKGDIR/zz_demo${N}_test.go
 DEMO_WITH=$(go test -vet=off -count=1 $PKGDIR 2>&1 | tail -1)
